@@ -84,6 +84,32 @@ pub fn recv_fut<'a>(kind: &str, conn: &'a mut Conn) -> BoxFut<'a> {
     }
 }
 
+/// Human-readable variant of `reference` (debug output of the result).
+pub fn reference_verbose(kind: &str, frame: &[u8]) -> String {
+    fn v<T: core::fmt::Debug>(r: zlink_core::Result<T>) -> String {
+        format!("{r:?}")
+    }
+    let net = new_net(vec![]);
+    {
+        let mut n = net.borrow_mut();
+        n.avail.extend(frame.iter().copied());
+        n.avail.push_back(0);
+        n.closed = true;
+    }
+    let mut conn = Connection::new(SSocket(net));
+    match kind {
+        "cM1" => v(block_on(conn.receive_call::<M1>())),
+        "cM2" => v(block_on(conn.receive_call::<M2<'_>>())),
+        "cSvc" => v(block_on(conn.receive_call::<varlink_service::Method<'_>>())),
+        "rP1E1" => v(block_on(conn.receive_reply::<P1, E1>())),
+        "rUnitE1" => v(block_on(conn.receive_reply::<(), E1>())),
+        "rValE1" => v(block_on(conn.receive_reply::<serde_json::Value, E1>())),
+        "rP2E2" => v(block_on(conn.receive_reply::<P2<'_>, E2<'_>>())),
+        "rP3E1" => v(block_on(conn.receive_reply::<P3, E1>())),
+        _ => "unknown kind".into(),
+    }
+}
+
 /// Reference verdict for one frame: what a fresh connection returns for this frame alone,
 /// delivered in one read.
 pub fn reference(kind: &str, frame: &[u8]) -> String {
